@@ -86,7 +86,9 @@ class C12:
             '(exhaustive for small n, sampled above) x 4 linkages x merge thresholds drawn from the observed normalised knee gaps (exact ties), '
             'their nextafter neighbours and a grid x 4 ranking modes + the corner variant (modes round-robin in the quick tier, all on every '
             '(curve, subset) of the small-n stratum in the thorough tier); non-trivial = at least one cluster with >= 2 members; '
-            'distinct by (points, knees, labels, mode)')
+            'distinct by (points, knees, labels, mode); about one case in six is a same-object sequence: one points buffer (refilled in place by a sibling curve '
+            'between calls) and one int64 knee array serve 2-4 calls with different linkage / threshold / mode, every call judged against the model fed from '
+            'fresh copies, and the arguments compared with their snapshots afterwards')
     assumptions = ['cluster labels are those the real clustering function returned on points[knees] (recorded through a pass-through wrapper); '
                    'their shape (first 0, steps 0/+1) is a hypothesis of the theorems, checked per case (C11 proves it for the four linkages)',
                    'Tier-O clause fc_best / fcc_best is vacuous for a cluster whose score list contains a NaN (counted in histogram nan_scores)',
@@ -140,14 +142,132 @@ class C12:
             cfg += 1
             cases.append({'points': pts, 'family': fam, 'knees': ks, 'link': link, 't': rng.choice(thresholds(rng, pts, ks)), 'mode': mode,
                           'int64': integral(pts) and rng.random() < 0.5})
+        # same-object multi-call stream (about one case in six): ONE points buffer and ONE int64 knee array serve a sequence of
+        # 2-4 calls with different linkage / threshold / ranking mode (hull included); between calls the buffer may be refilled
+        # IN PLACE with a sibling curve of the same length (added after the seeded change C12-r3m1: a hull memoised on `is points`)
+        for _ in range(len(cases) // 6):
+            cases.append(self._gen_sequence(rng, hi))
         return cases
+
+    def _gen_sequence(self, rng, hi):
+        n = rng.randint(5, min(hi, 24))
+        fam, A = pick_curve(rng, n)
+        B = None
+        for _ in range(8):
+            famb, B = pick_curve(rng, n)
+            if integral(B) == integral(A):
+                break
+        i64 = integral(A) and integral(B) and rng.random() < 0.5
+        k = rng.randint(2, max(2, min(n - 2, 8)))
+        if rng.random() < 0.5:
+            start = rng.randint(1, n - 1 - k)
+            ks = list(range(start, start + k))
+        else:
+            ks = sorted(rng.sample(range(1, n - 1), k))
+        steps = []
+        hull_sweep = rng.random() < 0.5
+        cur = A
+        for i in range(rng.randint(2, 4)):
+            if i > 0 and rng.random() < (0.85 if hull_sweep else 0.5):
+                cur = B if cur is A else A
+            mode = 'hull' if (hull_sweep and rng.random() < 0.85) else rng.choice(MODES)
+            steps.append({'points': cur, 'family': fam, 'knees': ks, 'link': rng.choice(LINKS), 't': rng.choice(thresholds(rng, cur, ks)),
+                          'mode': mode, 'int64': i64})
+        return {'seq': steps, 'family': fam}
+
+    # ---- the public API: single cases and sequences ----
+    def run_impl(self, c):
+        if 'seq' in c:
+            return self._run_sequence(c)
+        return self._run_single(c)
+
+    def _run_sequence(self, c):
+        import numpy as np
+        import kneeliverse.postprocessing as pp
+        import kneeliverse.clustering as cl
+        import kneeliverse.knee_ranking as kr
+        c = dict(c)
+        steps = c['seq']
+        # expected behaviour of every call: model inputs and oracle tables from separate fresh copies, computed beforehand
+        subs = [self._run_single(dict(s)) for s in steps]
+        i64 = bool(steps[0].get('int64')) and all(integral(s['points']) for s in steps)
+        dt = np.int64 if i64 else float
+        P = np.array(steps[0]['points'], dtype=dt)          # the ONE points buffer
+        K = np.array(steps[0]['knees'], dtype=np.int64)     # the ONE knee array
+        K0 = K.copy()
+        cur = steps[0]['points']
+        for s, sub in zip(steps, subs):
+            if s['points'] != cur:
+                P[:] = np.array(s['points'], dtype=dt)      # refill in place: same object, new curve
+                cur = s['points']
+            f = getattr(cl, s['link'] + '_linkage')
+            if s['mode'] == 'corner':
+                st, out = call(pp.filter_clusters_corners, P, K, f, s['t'])
+            else:
+                st, out = call(pp.filter_clusters, P, K, f, s['t'], kr.ClusterRanking[s['mode']])
+            sub['out_fresh'] = sub.get('out')
+            sub['out'] = as_nat_list(out) if st == 'ok' else None
+            sub['exc'] = None if st == 'ok' else out
+        c['subs'] = subs
+        c['intact'] = bool(np.array_equal(K, K0) and np.array_equal(P, np.array(cur, dtype=dt)))
+        return c
+
+    def emit(self, c):
+        if 'seq' in c:
+            if c.get('skip') or 'subs' not in c:
+                return 'CSeq [] true'
+            return 'CSeq %s %s' % (clist([self._emit_single(s) for s in c['subs']]), cbool(c.get('intact', True)))
+        return self._emit_single(c)
+
+    def nontrivial_key(self, c):
+        if 'seq' in c:
+            keys = [self._key_single(s) for s in c.get('subs', [])]
+            return ('seq',) + tuple(keys) if any(k is not None for k in keys) else None
+        return self._key_single(c)
+
+    def classify(self, c):
+        if 'seq' in c:
+            if c.get('skip') or 'subs' not in c:
+                return {'mode': 'skipped'}
+            subs = c['subs']
+            refills = sum(1 for a, b in zip(c['seq'], c['seq'][1:]) if a['points'] != b['points'])
+            return {'mode': 'sequence (same points buffer / knee array)', 'sequence_calls': len(subs), 'sequence_refills_in_place': refills,
+                    'sequence_hull_calls': sum(1 for s in c['seq'] if s['mode'] == 'hull'),
+                    'dtype': 'int64' if c['seq'][0].get('int64') else 'float64', 'arguments_intact': bool(c.get('intact', True)),
+                    'outcome': 'ok' if all(not s.get('exc') for s in subs) else 'exception'}
+        return self._classify_single(c)
+
+    def shrink(self, c):
+        if 'seq' in c:
+            out = []
+            steps = c['seq']
+            for j in range(len(steps)):
+                if len(steps) > 2:
+                    out.append({'seq': steps[:j] + steps[j + 1:], 'family': c.get('family')})
+            ks = steps[0]['knees']
+            for j in range(len(ks)):
+                if len(ks) > 2:
+                    out.append({'seq': [dict(s, knees=ks[:j] + ks[j + 1:]) for s in steps], 'family': c.get('family')})
+            return out
+        return self._shrink_single(c)
+
+    def sample(self, c):
+        if 'seq' in c:
+            return {'sequence': [self._sample_single(s) for s in c.get('subs', c['seq'])], 'intact': c.get('intact')}
+        return self._sample_single(c)
+
+    def describe(self, c):
+        if 'seq' in c:
+            return ('ONE points buffer P and ONE int64 knee array K, consecutive calls (P refilled in place, P[:] = ..., when the points change): '
+                    + ' ;; '.join(self._describe_single(s) for s in c['seq']))
+        return self._describe_single(c)
 
     def on_timeout(self, c):
         c = dict(c)
         c['skip'] = 'timeout'
         return c
 
-    def run_impl(self, c):
+    def _run_single(self, c):
         import numpy as np
         import kneeliverse.postprocessing as pp
         import kneeliverse.clustering as cl
@@ -242,7 +362,7 @@ class C12:
                 c['r2'] += [[a, b, v] for (a, b), v in sorted(r2.items()) if (a, b) not in have]
         return c
 
-    def emit(self, c):
+    def _emit_single(self, c):
         if c.get('skip'):
             return 'CCorner [] [] [] [] None'
         xs = cfls([p[0] for p in c['points']])
@@ -256,12 +376,12 @@ class C12:
         return 'CFilt2 %s %s %s %s %s %s %s %s %s %s' % (CMODE[c['mode']], xs, ys, cnats(c['knees']), cnats(c['labels']),
                                                          cnats(c['hull']), r2, tab(c['scores']), sd, out)
 
-    def nontrivial_key(self, c):
+    def _key_single(self, c):
         if c.get('skip') or not c.get('multi'):
             return None
         return (str(c['points']), tuple(c['knees']), tuple(c['labels']), c['mode'], bool(c.get('int64')))
 
-    def classify(self, c):
+    def _classify_single(self, c):
         if c.get('skip'):
             return {'mode': 'skipped'}
         h = {'mode': c['mode'], 'linkage': c['link'], 'n': min(len(c['points']), 64) // 4 * 4, 'family': c.get('family'),
@@ -270,7 +390,7 @@ class C12:
             h['nan_scores (Tier-O clause vacuous)'] = bool(c.get('nan_scores'))
         return h
 
-    def shrink(self, c):
+    def _shrink_single(self, c):
         out = []
         pts, ks = c['points'], c['knees']
         base = {k: v for k, v in c.items() if k in ('points', 'family', 'knees', 'link', 't', 'mode', 'int64')}
@@ -288,11 +408,11 @@ class C12:
             out.append(d)
         return out
 
-    def sample(self, c):
+    def _sample_single(self, c):
         keys = ['points', 'knees', 'link', 't', 'mode', 'int64', 'labels', 'hull', 'scores', 'r2', 'obs', 'out']
         return {k: c[k] for k in keys if k in c}
 
-    def describe(self, c):
+    def _describe_single(self, c):
         dt = ', dtype=np.int64' if c.get('int64') else ''
         if c['mode'] == 'corner':
             return ('kneeliverse.postprocessing.filter_clusters_corners(np.array(%s%s), np.array(%s), kneeliverse.clustering.%s_linkage, %r)'
